@@ -29,6 +29,15 @@ def run(ctx, db, tier):
     tracer_first(ctx, db)
     from . import C02
     C02.walk(ctx, db, 'C17.tracer-may-free-the-state')
+    # every copy's awaiter and the tracer register on the one shared future: a registration that arrives after (or races with) the resolution
+    # must be refused, never parked on top of the ready marker
+    C02.subscribe_protocol(ctx, db, 'C17.late-awaiter-refused')
+    from . import C01
+    # all copies read the same stored result: the accessors must leave it in place for the next reader
+    C01.result_immutable(ctx, db, 'C17.result-stays-for-every-copy')
+    # a promise handle that is overwritten while it still owns the shared state must drop it (resolve to no-value), or the state, its
+    # awaiters and the tracer's self-reference stay for ever
+    C01.dtor_and_assign(ctx, db, 'C17.overwritten-promise-dropped')
     atomic.check_roles(ctx, db, 'C17.ready-acquires', only_functions={'cocls::future_common::ready', 'cocls::awaiter::resume_chain_set_ready', 'cocls::awaiter::subscribe_check_ready'}, floor=3)
 
 
